@@ -643,8 +643,9 @@ def _esc_attr(s):
 
 
 class Ser(object):
-    def __init__(self, spec, alt=False):
+    def __init__(self, spec, alt=False, pretty=True):
         self.spec = spec
+        self.pretty = pretty
         self.pfx = dict((k, (ALT.get(k, k) if alt else k)) for k in NSURI)
         self.out = []
         self.png = False
@@ -661,7 +662,8 @@ class Ser(object):
         self.out.append(u'</%s>' % self.q(name))
 
     def nl(self, depth):
-        self.out.append(u'\n' + u' ' * depth)
+        if self.pretty:
+            self.out.append(u'\n' + u' ' * depth)
 
     def root(self, name):
         ns = u''.join(u' xmlns:%s="%s"' % (self.pfx[k], NSURI[k]) for k in sorted(NSURI) if k != 'manifest')
@@ -813,10 +815,10 @@ class Ser(object):
         return u''.join(self.out)
 
 
-def write_package(spec, path, alt=False):
+def write_package(spec, path, alt=False, pretty=True):
     """the document as a package the library did not write"""
     import zipfile
-    ser = Ser(spec, alt)
+    ser = Ser(spec, alt, pretty)
     content, styles, meta = ser.content(), ser.stylesxml(), ser.metaxml()
     mime = MIME[spec['kind']]
     entries = [(u'/', mime), (u'content.xml', u'text/xml'), (u'styles.xml', u'text/xml'), (u'meta.xml', u'text/xml')]
